@@ -197,6 +197,27 @@ def run(rng, tier, model_ok):
                         "key": "unit-value:%s" % word if word in known_bad else None}
             return None
         items.append((q, o))
+    # ---- the same definitions under a power: below the bar, squared, cubed, and as the power of a quantity -- the dimensions of a unit
+    # raised to p are p times its reference dimensions and its scale is the p-th power (a table entry written for power one only shows here)
+    for word, dims, vals in ref:
+        if not unitlib.WORDCHARS.match(word) or not any(dims) or word in known_bad or len(vals) != 1:
+            continue
+        val1 = list(vals)[0]
+        if "Kelvin" in t["bases"] and sum(abs(k) for k in dims) == 1 and dims[t["bases"].index("Kelvin")] == 1 and val1 != 1:
+            continue                                  # an offset scale: powers of it are C09's subject (refused)
+        for p_ in (-1, 2, -2, 3):
+            basep = "*".join("%s^%d" % (BASE_WORD[b], k * p_) for b, k in zip(t["bases"], dims) if k)
+            below = ("1 cd/%s to cd*%s" % (word, basep),) if p_ == -1 and "Candela" in t["bases"] and not dims[t["bases"].index("Candela")] else ()
+            for q in ("1 %s^%d to %s" % (word, p_, basep), "(1 %s)^%d to %s" % (word, p_, basep)) + below:
+                def op(reply, word=word, p_=p_, want=val1 ** p_):
+                    v = pipeline.single_value(reply)
+                    if v is None:
+                        return {"why": "%s to the power %d is not convertible to %d times its reference dimensions" % (word, p_, p_), "key": None}
+                    if Fraction(v[0], v[1]) != want:
+                        return {"why": "1 %s^%d = %s in base SI units; the reference gives %s" % (word, p_, Fraction(v[0], v[1]), want), "key": None}
+                    return None
+                items.append((q, op))
+                stats["reference_units_under_powers"] = stats.get("reference_units_under_powers", 0) + 1
     # ---- a word that concatenates two units, followed by ^n: the power applies to the last unit of the word, under its own prefix
     cat = []
     firsts = ["N", "kW", "W", "kg", "J", "mN", "V", "A", "kJ", "Wb"]
